@@ -116,6 +116,8 @@ pub fn run_check(sc: &dyn Scenario, tier: Tier) -> Report {
     // ---- failing runs -> minimised replay files ------------------------------------------------
     let mut cx = Cx {
         sc,
+        tier,
+        seed,
         prop,
         known: load_known(),
         lines: vec![],
@@ -138,7 +140,7 @@ pub fn run_check(sc: &dyn Scenario, tier: Tier) -> Report {
                 cx.harness_error = Some(format!("regress file {} does not parse", f.display()));
                 continue;
             };
-            for x in sc.eval(&v).iter().filter(|x| x.clause.starts_with(prop)) {
+            for x in eval_any(sc, &v).iter().filter(|x| x.clause.starts_with(prop)) {
                 cx.handle_regress(f.to_string_lossy().as_ref(), &x.sig, &x.detail);
             }
         }
@@ -153,12 +155,33 @@ pub fn run_check(sc: &dyn Scenario, tier: Tier) -> Report {
         if viols.iter().all(|v| cx.reported.contains_key(&v.sig)) {
             continue;
         }
-        // regenerate the failing case from its run index (pure function of seed and run)
-        let mut tmp = Stats::default();
+        // regenerate the failing case from its run index (pure function of seed and run) — on a
+        // fresh thread, so that nothing an earlier regeneration left in thread-local state of the
+        // crate under test can leak into this one
         let logger = *run >= LOG_RUN_OFFSET;
-        let (rr, case) = sc.one_run(seed, *run, tier, &mut tmp);
+        let (rr, case) = on_fresh_thread(|| sc.one_run(seed, *run, tier, &mut Stats::default()));
         let Some(case) = case else {
-            cx.harness_error = Some(format!("run {} failed in the batch but not when regenerated (nondeterminism)", run));
+            // Alone the run holds. Then its outcome in the batch depended on what the same worker
+            // thread had executed before it: the crate keeps state across calls. Re-execute that
+            // history on a fresh thread; if the violation is back, the history is the replay.
+            let (stage, idx) = if logger { (crate::watch::STAGE_LOG, *run - LOG_RUN_OFFSET) } else { (crate::watch::STAGE_MAIN, *run) };
+            let mut done = false;
+            if let Some(h) = fail_history(stage, idx) {
+                let off = if logger { LOG_RUN_OFFSET } else { 0 };
+                let mut runs: Vec<u64> = h.iter().map(|x| x + off).collect();
+                runs.push(*run);
+                let body = json!({"kind": "history", "property": prop, "seed": seed.to_string(), "tier": tier.name(), "runs": runs, "logger": logger});
+                let got = eval_history(sc, &body);
+                for v in got.iter().filter(|v| v.clause.starts_with(prop)) {
+                    if viols.iter().any(|x| x.sig == v.sig) {
+                        cx.handle_history(v.sig.clone(), v.detail.clone(), body.clone());
+                        done = true;
+                    }
+                }
+            }
+            if !done {
+                cx.harness_error = Some(format!("run {} failed in the batch but neither alone nor after the runs its worker thread had executed before it (nondeterminism)", run));
+            }
             continue;
         };
         if rr.violations.len() != viols.len() {
@@ -223,6 +246,8 @@ pub fn run_check(sc: &dyn Scenario, tier: Tier) -> Report {
 
 struct Cx<'a> {
     sc: &'a dyn Scenario,
+    tier: Tier,
+    seed: u64,
     prop: &'static str,
     known: Vec<Known>,
     lines: Vec<String>,
@@ -232,7 +257,115 @@ struct Cx<'a> {
     harness_error: Option<String>,
 }
 
+/// run `f` on a thread of its own (thread-local state of the crate under test starts empty)
+pub fn on_fresh_thread<T: Send>(f: impl FnOnce() -> T + Send) -> T {
+    std::thread::scope(|s| s.spawn(f).join()).unwrap_or_else(|e| std::panic::resume_unwind(e))
+}
+
+/// A history replay: the seeded runs `runs`, executed one after the other on one fresh thread;
+/// the verdict is that of the last one. (Depends on the generators, unlike a materialised case:
+/// the producer's calls into the crate's writer are part of the history.)
+pub fn eval_history(sc: &dyn Scenario, body: &J) -> Vec<Violation> {
+    let seed: u64 = body["seed"].as_str().and_then(|s| s.parse().ok()).unwrap_or(DEFAULT_SEED);
+    let tier = if body["tier"].as_str() == Some("thorough") { Tier::Thorough } else { Tier::Quick };
+    let runs: Vec<u64> = body["runs"].as_array().map(|a| a.iter().filter_map(|x| x.as_u64()).collect()).unwrap_or_default();
+    on_fresh_thread(|| {
+        let mut last = vec![];
+        for r in &runs {
+            let res = std::panic::catch_unwind(std::panic::AssertUnwindSafe(|| sc.one_run(seed, *r, tier, &mut Stats::default()).0.violations));
+            last = res.unwrap_or_default();
+        }
+        last
+    })
+}
+
+/// evaluation of any replay body: a materialised case or a history
+pub fn eval_any(sc: &dyn Scenario, body: &J) -> Vec<Violation> {
+    if body["kind"].as_str() == Some("history") {
+        eval_history(sc, body)
+    } else {
+        sc.eval(body)
+    }
+}
+
 impl<'a> Cx<'a> {
+    /// a violation that needs the runs before it: shrink the history, confirm in a fresh process
+    fn handle_history(&mut self, sig: String, detail: String, body: J) {
+        let prop = self.prop;
+        if self.reported.contains_key(&sig) {
+            return;
+        }
+        if let Some(k) = known_match(&self.known, prop, &sig) {
+            self.reported.insert(sig.clone(), String::new());
+            self.lines.push(format!("KNOWN-FINDING: property={} {} [{}]", prop, k.what, sig));
+            self.n_known += 1;
+            return;
+        }
+        let fails = |b: &J| eval_history(self.sc, b).iter().any(|v| v.sig == sig);
+        let mut runs: Vec<u64> = body["runs"].as_array().map(|a| a.iter().filter_map(|x| x.as_u64()).collect()).unwrap_or_default();
+        let last = runs.pop().unwrap_or(0);
+        // delta debugging over the earlier runs (the last one stays)
+        let mut chunk = (runs.len() / 2).max(1);
+        let mut budget = 300;
+        while !runs.is_empty() && budget > 0 {
+            let mut i = 0;
+            let mut progress = false;
+            while i < runs.len() && budget > 0 {
+                let end = (i + chunk).min(runs.len());
+                let mut cand: Vec<u64> = runs[..i].to_vec();
+                cand.extend_from_slice(&runs[end..]);
+                let mut b = body.clone();
+                let mut all = cand.clone();
+                all.push(last);
+                b["runs"] = json!(all);
+                budget -= 1;
+                if fails(&b) {
+                    runs = cand;
+                    progress = true;
+                } else {
+                    i = end;
+                }
+            }
+            if chunk == 1 {
+                if !progress {
+                    break;
+                }
+            } else {
+                chunk /= 2;
+            }
+        }
+        let mut fin = body.clone();
+        let mut all = runs.clone();
+        all.push(last);
+        fin["runs"] = json!(all);
+        fin["violation"] = json!({"property": prop, "signature": sig, "detail": detail});
+        fin["explanation"] = json!("the last run violates the property only after the runs before it have been executed on the same thread: the crate keeps state across calls. Each entry of `runs` is a run index of the seeded generator (pure function of seed and index); the written-out cases are in `steps_for_the_reader`.");
+        fin["steps_for_the_reader"] = J::Array(all.iter().map(|r| {
+            let mut c = self.sc.case_for_run(body["seed"].as_str().and_then(|s| s.parse().ok()).unwrap_or(DEFAULT_SEED), *r, if body["tier"].as_str() == Some("thorough") { Tier::Thorough } else { Tier::Quick });
+            if let Some(o) = c.as_object_mut() {
+                o.remove("gen");
+            }
+            c
+        }).collect());
+        let path = write_replay(prop, &fin);
+        match replay_in_fresh_process(&path) {
+            Ok(sigs) if sigs.iter().any(|s| *s == sig) => {
+                self.lines.push(format!("VIOLATION property={} replay={}", prop, path));
+                self.lines.push(format!("  clause/signature: {} (only after {} earlier run(s) on the same thread: state kept across calls)", sig, runs.len()));
+                self.lines.push(format!("  detail: {}", detail));
+                self.n_viol += 1;
+                self.reported.insert(sig, path);
+            }
+            Ok(sigs) => {
+                self.harness_error = Some(format!("history replay {} did not reproduce {} in a fresh process (got {:?})", path, sig, sigs));
+                self.reported.insert(sig, String::new());
+            }
+            Err(e) => {
+                self.harness_error = Some(format!("could not run replay: {}", e));
+                self.reported.insert(sig, String::new());
+            }
+        }
+    }
     fn handle_regress(&mut self, path: &str, sig: &str, detail: &str) {
         if self.reported.contains_key(sig) {
             return;
@@ -292,6 +425,18 @@ impl<'a> Cx<'a> {
                 self.reported.insert(sig, path);
             }
             Ok(sigs) => {
+                // The materialised case (medium + decision script) does not carry the violation
+                // into a fresh process. If the seeded run itself does — generation included: the
+                // producer's calls into the crate's writer are then part of what it takes — report
+                // it as a one-run history.
+                if let Some(run) = fin["provenance"]["run"].as_u64() {
+                    let body = json!({"kind": "history", "property": prop, "seed": self.seed.to_string(), "tier": self.tier.name(), "runs": [run], "logger": logger});
+                    if eval_history(self.sc, &body).iter().any(|v| v.sig == sig) {
+                        let _ = std::fs::remove_file(&path);
+                        self.handle_history(sig, fin_detail, body);
+                        return;
+                    }
+                }
                 self.harness_error =
                     Some(format!("replay {} did not reproduce {} in a fresh process (got {:?})", path, sig, sigs));
                 self.reported.insert(sig, String::new());
@@ -322,7 +467,7 @@ pub fn run_replay(path: &str, scenarios: &[&dyn Scenario]) -> i32 {
     if v["logger"].as_bool().unwrap_or(false) {
         enable_trace_logger();
     }
-    let viols = sc.eval(&v);
+    let viols = eval_any(*sc, &v);
     let mut code = 0;
     for x in viols.iter().filter(|x| x.clause.starts_with(&prop)) {
         println!("REPLAY-VIOLATION sig={} detail={}", x.sig, x.detail);
